@@ -8,11 +8,16 @@ list of ``[key parts, meta spec, hash spec, is explicit dir]``:
   the directory's hash *derived from its descendant files* (so "same hash => same children");
 * well-formed = keys unique, no file key is a proper prefix of another key.
 
+In the storage arm (``case["storage"]``) a directory entry's hash spec may also be ``"L"`` (unloaded,
+loadable: the listing object is written into the attached store, the keys below it are listed in the
+spec in their loaded form but left to the loader) or ``["U", n]`` (unloaded, object absent).
+
 The oracle is a flat dictionary diff (no descent, no listing) following DESIGN.md 4/C08 (a)-(f).
 """
 
 import hashlib
 import json
+import os
 
 from hypothesis import strategies as st
 
@@ -30,10 +35,16 @@ RULE = (
     "toggle explicit / hashed directory entry; a rename arm draws hashes from three values so several "
     "deleted and added keys share a hash); either side may be None or empty; options with_unchanged, mode in "
     "{full, hash_only, meta_only}, meta_cmp_key in {None, (isdir, isexec)}, shallow, with_renames "
-    "(never with meta_only: asserted by the code), with_unknown. Oracle: flat key-by-key reference "
+    "(never with meta_only: asserted by the code), with_unknown. A storage arm attaches a cache "
+    "ObjectStorage (HashFileDB on scratch) to both indexes and turns 1-3 non-root directories into "
+    "unloaded .dir entries: loadable (listing object written as reference bytes, files below it come "
+    "from the loader) or un-enumerable (object absent), with siblings around them, with_unknown mostly "
+    "on. Oracle: flat key-by-key reference "
     "diff over the two key->entry dictionaries (under shallow, keys outside hashed sub-trees stay exact; "
     "a key strictly below a hashed entry may be seen or not seen on that side - any of those outcomes "
-    "is accepted, nothing else): "
+    "is accepted, nothing else; under with_unknown a key strictly below an un-enumerable directory may "
+    "be classified normally or UNKNOWN, every other key - the directory's own key and its siblings "
+    "included - stays exact and is never UNKNOWN): "
     "(a) every key with an entry is reported exactly once under with_unchanged, (b,f) classification "
     "equals the reference table in all three modes, (c) diff(x, x) has no change, (d) diff(b, a) is "
     "diff(a, b) with add/delete and old/new swapped, (e) renames pair one deleted and one added key "
@@ -46,7 +57,11 @@ RULE = (
 ASSUMPTIONS = [
     "indexes are well-formed: file keys are prefix-free, directory entries carry Meta(isdir=True), a "
     "directory entry's .dir hash is a function of its descendant file keys and hashes",
-    "no storage is attached (nothing is lazily loaded; with_unknown can never fire)",
+    "outside the storage arm no storage is attached (nothing is lazily loaded; with_unknown cannot fire)",
+    "storage arm: explicit directory entries are marked loaded=True (what the loader leaves behind; an "
+    "unloaded directory entry without a loadable object is by construction un-enumerable), unloaded "
+    "entries are never nested and never the root key; keys below a loadable entry are expected in the "
+    "form the loader produces (Meta(md5=oid) + md5 hash, explicit hash-less intermediate directories)",
     "an entry with a hash and no meta is read as Meta() (what info()/ls() hand to the diff)",
     "shallow: the diff does not list below an entry that carries a hash; what happens to keys inside such "
     "a sub-tree when the other side leads the descent there is unspecified, so only consistency with some "
@@ -55,6 +70,7 @@ ASSUMPTIONS = [
 ]
 
 ADD, MODIFY, RENAME, DELETE, UNCHANGED = "add", "modify", "rename", "delete", "unchanged"
+UNKNOWN = "unknown"
 
 # ------------------------------------------------------------------------------------------------
 # generator
@@ -95,6 +111,7 @@ _i25 = st.integers(0, 24)
 _i4 = st.integers(0, 3)
 _i6 = st.integers(0, 5)
 _nmut = st.sampled_from([2, 1, 3, 4, 0, 5, 6])
+_nmarks = st.sampled_from([1, 2, 0])
 _modes3 = st.sampled_from(["full", "hash", "meta"])
 _modes2 = st.sampled_from(["full", "hash"])
 
@@ -115,6 +132,8 @@ def _dir(draw, depth, hs):
         "e": draw(_extras) if explicit else {},
         "hd": explicit and draw(_hashed),
         "c": {},
+        "lz": None,   # storage arm: "L" = unloaded, loadable .dir entry; "U" = unloaded, object absent
+        "uv": 0,
     }
     for _ in range(draw(_nsub if depth else _nroot)):
         name = draw(_names)
@@ -131,7 +150,7 @@ def _copy(node):
     if node["t"] == "f":
         return {"t": "f", "m": None if node["m"] is None else dict(node["m"]), "h": node["h"]}
     return {"t": "d", "x": node["x"], "e": dict(node["e"]), "hd": node["hd"],
-            "c": {k: _copy(v) for k, v in node["c"].items()}}
+            "c": {k: _copy(v) for k, v in node["c"].items()}, "lz": node["lz"], "uv": node["uv"]}
 
 
 def _paths(root, want):
@@ -162,6 +181,21 @@ MUTATIONS = ["rehash", "move", "remeta", "add", "drop", "f2d", "d2f", "explicit"
 
 MUTATIONS_REN = ["move", "mvdir", "move", "rehash", "drop", "add", "mvdir", "move", "f2d", "dup", "d2f",
                  "explicit", "hashed", "remeta"]
+
+
+MUTATIONS_STORE = ["rehash", "uval", "add", "unlazy", "lazy", "unenum", "remeta", "move", "drop", "f2d",
+                   "d2f", "explicit", "hashed", "mvdir"]
+
+
+def _mark(draw, root, lz):
+    """Turn a non-root directory into an unloaded .dir entry (loadable or not); if there is none, add one."""
+    cands = [p for p in _paths(root, "d") if p]
+    if cands and draw(_i4) != 3:
+        node = _get(root, _pick(draw, cands))
+    else:
+        node = _dir(draw, 3, _hashes)
+        _get(root, _pick(draw, _paths(root, "d")))["c"][draw(_names)] = node
+    node["lz"], node["uv"] = lz, draw(_i4)
 
 
 def _mutate(draw, root, muts, hs):  # noqa: C901, PLR0912
@@ -198,6 +232,16 @@ def _mutate(draw, root, muts, hs):  # noqa: C901, PLR0912
             del _get(root, p[:-1])["c"][p[-1]]
             d = _get(root, _pick(draw, _paths(root, "d")))
             d["c"][draw(_names)] = node  # a directory rename: every file below it moves
+    elif op in ("lazy", "unenum"):
+        _mark(draw, root, "L" if op == "lazy" else "U")
+    elif op == "unlazy":
+        cands = [p for p in dirs if _get(root, p)["lz"]]
+        if cands:
+            _get(root, _pick(draw, cands))["lz"] = None
+    elif op == "uval":
+        cands = [p for p in dirs if _get(root, p)["lz"] == "U"]
+        if cands:
+            _get(root, _pick(draw, cands))["uv"] = draw(_i4)
     elif op == "f2d":
         p = _pick(draw, files)
         old = _get(root, p)
@@ -228,38 +272,74 @@ def _mutate(draw, root, muts, hs):  # noqa: C901, PLR0912
     return op
 
 
-def _flatten(root):
-    """tree -> spec list [[key, meta, hash, isdir], ...] sorted by key."""
+def _md5(h):
+    ok = h is not None and h[0] == "md5" and h[1] and not h[1].endswith(".dir")
+    return h if ok else ["md5", _V[0]]
+
+
+def _has_files(node):
+    return node["t"] == "f" or any(_has_files(c) for c in node["c"].values())
+
+
+def _flatten(root, storage=False):
+    """tree -> spec list [[key, meta, hash, isdir], ...] sorted by key.
+
+    Storage arm: a directory marked "U" becomes one entry with hash spec ["U", n] and nothing below it;
+    a directory marked "L" becomes one entry with hash spec "L", and the keys below it are listed in the
+    form the index has *after* loading it (files: Meta(md5=oid) + md5 hash; every intermediate directory
+    explicit, Meta(isdir=True), no hash) - build_index leaves them out and writes the listing object.
+    """
     out = []
 
-    def rec(node, key):
+    def rec(node, key, in_lazy):
         if node["t"] == "f":
-            out.append([list(key), node["m"], node["h"], False])
+            if in_lazy:
+                h = _md5(node["h"])
+                out.append([list(key), {"md5": h[1]}, h, False])
+            else:
+                out.append([list(key), node["m"], node["h"], False])
             return
-        if node["x"]:
+        if in_lazy:
+            if not _has_files(node):
+                return
+            out.append([list(key), {"isdir": True}, None, True])
+        elif storage and key and node["lz"] == "U":
+            out.append([list(key), {"isdir": True, **node["e"]}, ["U", node["uv"]], True])
+            return
+        elif storage and key and node["lz"] == "L" and _has_files(node):
+            out.append([list(key), {"isdir": True, **node["e"]}, "L", True])
+            in_lazy = True
+        elif node["x"]:
             out.append([list(key), {"isdir": True, **node["e"]}, "D" if node["hd"] else None, True])
         for name in sorted(node["c"]):
-            rec(node["c"][name], (*key, name))
+            rec(node["c"][name], (*key, name), in_lazy)
 
-    rec(root, ())
+    rec(root, (), False)
     out.sort(key=lambda e: e[0])
     return out
 
 
 @st.composite
-def cases(draw, mode=None, renames=None):
+def cases(draw, mode=None, renames=None, storage=False):
     # the rename arm draws hashes from three values and moves files more often, so that several
     # deleted and added keys carry the same hash
     hs = _hashes_ren if renames else _hashes
     muts = MUTATIONS_REN if renames else MUTATIONS
+    if storage:
+        muts = MUTATIONS_STORE
     base = _dir(draw, 0, hs)
+    if storage:
+        # 1-3 unloaded directory entries shared by both sides: at least one whose object is absent
+        _mark(draw, base, "U")
+        for _ in range(draw(_nmarks)):
+            _mark(draw, base, "U" if draw(_bool) else "L")
     if draw(_i20) != 19:
         base["x"], base["hd"], base["e"] = False, False, {}  # explicit root entry: rare
     other = _copy(base)
     ops = []
     for _ in range(draw(_nmut)):
         ops.append(_mutate(draw, other, muts, hs))
-    a, b = _flatten(base), _flatten(other)
+    a, b = _flatten(base, storage), _flatten(other, storage)
     if draw(_bool):
         a, b = b, a
     absent = draw(_i25)
@@ -281,7 +361,12 @@ def cases(draw, mode=None, renames=None):
         "with_renames": bool(renames and mode != "meta"),
         "with_unknown": draw(_i6) == 5,
     }
-    return {"old": a, "new": b, "opts": opts, "ops": ops}
+    case = {"old": a, "new": b, "opts": opts, "ops": ops}
+    if storage:
+        opts["with_unknown"] = not draw(_i4) == 3
+        opts["shallow"] = draw(_i6) == 5
+        case["storage"] = True
+    return case
 
 
 # ------------------------------------------------------------------------------------------------
@@ -297,7 +382,38 @@ def _norm_meta(m):
     return {k: v for k, v in m.items() if v is not None and v is not False}
 
 
-def check_spec(spec):
+UVALS = ["c" * 32, "d" * 32, "e" * 32, "c" * 32]
+
+
+def _lazy_kind(h):
+    if h == "L":
+        return "L"
+    if isinstance(h, list) and h and h[0] == "U":
+        return "U"
+    return None
+
+
+def lazy_manifest(spec, dkey):
+    """{relpath: oid} of the files the spec lists below the lazy directory dkey."""
+    n = len(dkey)
+    return {"/".join(e[0][n:]): e[2][1] for e in spec
+            if not e[3] and len(e[0]) > n and tuple(e[0][:n]) == dkey}
+
+
+def spec_hash(spec, key, h):
+    """hash spec -> [name, value] | None"""
+    if h == "D":
+        return derived_hash(spec, key)
+    if h == "L":
+        from .. import ref
+
+        return ["md5", ref.ref_tree_oid(lazy_manifest(spec, key))]
+    if _lazy_kind(h) == "U":
+        return ["md5", UVALS[h[1] % len(UVALS)] + ".dir"]
+    return h
+
+
+def check_spec(spec, storage=False):
     keys = [tuple(e[0]) for e in spec]
     if len(set(keys)) != len(keys):
         raise HarnessError(f"malformed index spec (duplicate key): {spec}")
@@ -311,6 +427,26 @@ def check_spec(spec):
             raise HarnessError(f"malformed index spec (directory entry without isdir): {e}")
         if e[2] == "D" and not e[3]:
             raise HarnessError(f"malformed index spec (derived hash on a file): {e}")
+    for e in spec:
+        if not _lazy_kind(e[2]):
+            continue
+        k = tuple(e[0])
+        if not storage or not e[3] or not k:
+            raise HarnessError(f"malformed index spec (unloaded directory entry {e})")
+        below = [x for x in spec if len(x[0]) > len(k) and tuple(x[0][:len(k)]) == k]
+        if _lazy_kind(e[2]) == "U" and below:
+            raise HarnessError(f"malformed index spec (keys below the un-enumerable {k})")
+        for x in below:
+            okf = not x[3] and x[2] == _md5(x[2]) and x[1] == {"md5": x[2][1]}
+            okd = x[3] and x[2] is None and x[1] == {"isdir": True}
+            if not (okf or okd):
+                raise HarnessError(f"malformed index spec ({x} below the lazy {k} is not in loaded form)")
+            if okf and any(
+                [list(x[0][:i]), {"isdir": True}, None, True] not in spec for i in range(len(k) + 1, len(x[0]))
+            ):
+                raise HarnessError(f"malformed index spec (implicit directory above {x} below the lazy {k})")
+        if _lazy_kind(e[2]) == "L" and not any(not x[3] for x in below):
+            raise HarnessError(f"malformed index spec (lazy {k} lists no file)")
 
 
 def derived_hash(spec, dkey):
@@ -328,9 +464,11 @@ def resolve(spec):
     out = {}
     for key, meta, h, isdir in spec:
         key = tuple(key)
-        if h == "D":
-            h = derived_hash(spec, key)
+        lz = _lazy_kind(h)
+        h = spec_hash(spec, key, h)
         out[key] = {"meta": meta, "hash": None if h is None else (h[0], h[1]), "isdir": bool(isdir)}
+        if lz:
+            out[key]["lz"] = lz
     return out
 
 
@@ -416,7 +554,11 @@ def ref_renames(table, ov, nv):
 # ------------------------------------------------------------------------------------------------
 # running the real thing
 # ------------------------------------------------------------------------------------------------
-def build_index(spec):
+def build_index(spec, odb=None):
+    """odb: storage arm - the index gets a cache ObjectStorage at (); explicit directory entries are
+    marked loaded (the form the loader itself leaves behind), "L"/"U" entries are unloaded .dir entries;
+    the listing object of an "L" entry is written into the store as reference bytes, the keys below it
+    are left to the loader."""
     from dvc_data.hashfile.hash_info import HashInfo
     from dvc_data.hashfile.meta import Meta
     from dvc_data.index import DataIndex, DataIndexEntry
@@ -424,15 +566,32 @@ def build_index(spec):
     if spec is None:
         return None
     idx = DataIndex()
-    for key, meta, h, _isdir in spec:
+    lazy = [tuple(e[0]) for e in spec if _lazy_kind(e[2]) == "L"]
+    for key, meta, h, isdir in spec:
         key = tuple(key)
-        if h == "D":
-            h = derived_hash(spec, key)
-        idx[key] = DataIndexEntry(
+        if any(len(key) > len(r) and key[:len(r)] == r for r in lazy):
+            continue
+        lz = _lazy_kind(h)
+        h = spec_hash(spec, key, h)
+        entry = DataIndexEntry(
             key=key,
             meta=None if meta is None else Meta(**meta),
             hash_info=None if h is None else HashInfo(name=h[0], value=h[1]),
         )
+        if odb is not None and isdir and not lz:
+            entry.loaded = True
+        if lz == "L":
+            from .. import ref
+
+            path = odb.oid_to_path(h[1])
+            os.makedirs(os.path.dirname(path), exist_ok=True)
+            with open(path, "wb") as f:
+                f.write(ref.ref_tree_bytes(lazy_manifest(spec, key)))
+        idx[key] = entry
+    if odb is not None:
+        from dvc_data.index import ObjectStorage
+
+        idx.storage_map.add_cache(ObjectStorage((), odb))
     return idx
 
 
@@ -469,7 +628,7 @@ def flat(changes):
                 continue
             ren.append((tuple(c.old.key), tuple(c.new.key)))
             continue
-        if c.typ not in (ADD, MODIFY, DELETE, UNCHANGED):
+        if c.typ not in (ADD, MODIFY, DELETE, UNCHANGED, UNKNOWN):
             bad.append(f"change of type {c.typ!r}")
             continue
         if c.old is None and c.new is None:
@@ -509,21 +668,25 @@ def outcome(o, n, mode, cmpkey, wu):
 
 
 def acceptance(fo, fn, opts):
-    """key -> (list of acceptable outcomes, exact?).
+    """key -> (list of acceptable outcomes, exact?, why not exact).
 
     Exact keys have one acceptable outcome.  Under `shallow`, a key strictly below a hashed entry of
     its own side is "not looked at" on that side; what the other side's listing does to it is not
-    specified anywhere, so for such keys every visible/hidden combination is accepted.
+    specified anywhere, so for such keys every visible/hidden combination is accepted.  Under
+    `with_unknown`, a key strictly below a directory that cannot be enumerated on either side may be
+    classified normally or as UNKNOWN; every key outside such directories (the directory's own key
+    included: its own hash and meta are known) stays exact.
     """
     mode, cmpkey, wu = opts["mode"], opts["cmpkey"], opts["with_unchanged"]
     of, nf = view(fo, False), view(fn, False)
-    if not opts["shallow"]:
-        return {k: ([outcome(of.get(k), nf.get(k), mode, cmpkey, wu)], True) for k in set(of) | set(nf)}
-    op, np_ = view(fo, True), view(fn, True)
+    op, np_ = view(fo, opts["shallow"]), view(fn, opts["shallow"])
+    unenum = set()
+    if opts["with_unknown"]:
+        unenum = {k for f in (fo, fn) if f for k, e in f.items() if e.get("lz") == "U"}
     acc = {}
     for k in set(of) | set(nf):
         if (k in of) == (k in op) and (k in nf) == (k in np_):
-            acc[k] = ([outcome(of.get(k), nf.get(k), mode, cmpkey, wu)], True)
+            acc[k] = ([outcome(of.get(k), nf.get(k), mode, cmpkey, wu)], True, "")
         else:
             outs = []
             for o in (of.get(k), op.get(k)):
@@ -531,7 +694,13 @@ def acceptance(fo, fn, opts):
                     out = outcome(o, n, mode, cmpkey, wu)
                     if out not in outs:
                         outs.append(out)
-            acc[k] = (outs, False)
+            acc[k] = (outs, False, "below a hashed entry, shallow")
+        if any(k[:i] in unenum for i in range(len(k))):
+            outs = list(acc[k][0])
+            for out in [(UNKNOWN, k in of, k in nf), (UNKNOWN, k in op, k in np_)]:
+                if out not in outs and (out[1] or out[2]):
+                    outs.append(out)
+            acc[k] = (outs, False, "below an un-enumerable directory, with_unknown")
     return acc
 
 
@@ -554,14 +723,15 @@ def compare_plain(plain, bad, acc, ov, nv, opts, tag=""):
                               f"{typ} reported for {key}, which has no entry on either side"))
     shortcut = mode == "hash" and not wu
     for key in sorted(acc):
-        outs, exact = acc[key]
+        outs, exact, why = acc[key]
         got = seen.get(key)
         if got in outs:
             continue
         o, n = ov.get(key), nv.get(key)
         if not exact:
-            viols.append(Viol(f"shallow-subtree-inconsistent{tag}:{mode}",
-                              f"{key} (below a hashed entry, shallow): reported {got}, acceptable {outs} "
+            sig = "shallow-subtree" if "shallow" in why else "unknown-subtree"
+            viols.append(Viol(f"{sig}-inconsistent{tag}:{mode}",
+                              f"{key} ({why}): reported {got}, acceptable {outs} "
                               f"(old={o}, new={n})"))
             continue
         want = outs[0]
@@ -595,14 +765,25 @@ def compare_plain(plain, bad, acc, ov, nv, opts, tag=""):
     return viols, omitted
 
 
-def run_case(case, ctx):  # noqa: C901, PLR0912, PLR0915
+def run_case(case, ctx):
+    if not case.get("storage"):
+        return _run(case, None)
+    from dvc_objects.fs.local import LocalFileSystem
+
+    from dvc_data.hashfile.db import HashFileDB
+
+    with ctx.tmpdir() as d:
+        return _run(case, HashFileDB(LocalFileSystem(), os.path.join(d, "odb")))
+
+
+def _run(case, odb):  # noqa: C901, PLR0912, PLR0915
     opts = case["opts"]
     mode, cmpkey = opts["mode"], opts["cmpkey"]
     if mode == "meta" and opts["with_renames"]:
         raise HarnessError("meta_only with with_renames is outside the domain (asserted by diff())")
     for side in ("old", "new"):
         if case[side] is not None:
-            check_spec(case[side])
+            check_spec(case[side], storage=odb is not None)
     fo = None if case["old"] is None else resolve(case["old"])
     fn = None if case["new"] is None else resolve(case["new"])
     # ov / nv: unpruned views (entry data by key); pv_o / pv_n: what a shallow diff looks at
@@ -610,7 +791,7 @@ def run_case(case, ctx):  # noqa: C901, PLR0912, PLR0915
     pv_o, pv_n = view(fo, opts["shallow"]), view(fn, opts["shallow"])
     acc = acceptance(fo, fn, opts)
 
-    old, new = build_index(case["old"]), build_index(case["new"])
+    old, new = build_index(case["old"], odb), build_index(case["new"], odb)
     viols = []
     counters = {}
 
@@ -637,7 +818,7 @@ def run_case(case, ctx):  # noqa: C901, PLR0912, PLR0915
     for name, idx, spec, vw in (("old", old, case["old"], pv_o), ("new", new, case["new"], pv_n)):
         if idx is None:
             continue
-        for other in (idx, build_index(spec)):
+        for other in (idx, build_index(spec, odb)):
             splain, sren, sbad = flat(real_diff(idx, other, opts))
             changed = [x for x in splain if x[0] != UNCHANGED]
             if changed or sren or sbad:
@@ -710,6 +891,23 @@ def run_case(case, ctx):  # noqa: C901, PLR0912, PLR0915
     nontrivial = bool(ov and nv and nested and differs)
 
     classes = [f"mode={mode}"]
+    if odb is not None:
+        classes.append("storage")
+        lz = {(k, e["lz"]) for f in (fo, fn) if f for k, e in f.items() if e.get("lz")}
+        if any(z == "L" for _, z in lz):
+            classes.append("storage:loadable-dir")
+        us = {k for k, z in lz if z == "U"}
+        if us:
+            classes.append("storage:unenumerable-dir")
+            keys = set(ov) | set(nv)
+            if any(k not in us and k[:-1] == u[:-1] and len(k) == len(u) for u in us for k in keys):
+                classes.append("storage:unenumerable-with-sibling")
+            if len({u[:-1] for u in us}) < len(us):
+                classes.append("storage:two-unenumerable-siblings")
+            if any(len(k) > len(u) and k[:len(u)] == u for u in us for k in keys):
+                classes.append("storage:other-side-lists-below-unenumerable")
+        if any(t == UNKNOWN for t, _, _, _ in plain):
+            classes.append("storage:unknown-reported")
     for o in ("with_unchanged", "cmpkey", "shallow", "with_renames", "with_unknown"):
         if opts[o]:
             classes.append(o)
@@ -734,7 +932,7 @@ def run_case(case, ctx):  # noqa: C901, PLR0912, PLR0915
         classes.append("explicit-root")
     if any(e["hash"] is None or e["meta"] is None for f in (fo, fn) if f for e in f.values()):
         classes.append("entry-without-hash-or-meta")
-    kinds = {out[0] for outs, _ in acc.values() for out in outs if out}
+    kinds = {out[0] for outs, exact, _ in acc.values() if exact for out in outs if out}
     for t in sorted(kinds):
         classes.append(f"has-{t}")
     if nren:
@@ -770,18 +968,20 @@ def _implicit_kind_change(f, g):
 
 # ------------------------------------------------------------------------------------------------
 ARMS = [
-    ("full", None),
-    ("hash", None),
-    ("meta", False),
-    (None, True),
+    ("full", None, False),
+    (None, None, True),   # indexes with a cache storage and unloaded .dir entries (with_unknown)
+    ("hash", None, False),
+    ("meta", False, False),
+    (None, True, False),
 ]
 
 
 def run(ctx):
     total = ctx.n(quick=2000, thorough=70000)
-    per = max(1, total // len(ARMS))
-    for mode, renames in ARMS:
-        if not ctx.run_given(cases(mode=mode, renames=renames), run_case, per):
+    per = max(1, total // 4)
+    for mode, renames, storage in ARMS:
+        n = max(1, per // 3) if storage else per
+        if not ctx.run_given(cases(mode=mode, renames=renames, storage=storage), run_case, n):
             return
 
 
